@@ -34,7 +34,8 @@ INFO = {
 MANDATORY = {'deep': ['verdict-equals-chain-predicate', 'reference-accepts-the-valid-chain'],
              'chain': ['verdict-equals-chain-predicate'], 'ctor': ['constructor-checks-anchor'],
              'ctor_roots': ['constructor-checks-anchor'], 'history': ['verdict-independent-of-history'],
-             'seq': ['verdict-independent-of-history'], 'concurrent': ['verdict-independent-of-history']}
+             'seq': ['verdict-independent-of-history'], 'concurrent': ['verdict-independent-of-history'],
+             'repair': ['verdict-independent-of-history', 'end']}
 
 SCHEMA = '''
 #KEY: "KEY"/_/_/_
@@ -139,6 +140,8 @@ async def repository(app, face, certs, behaviour, eng):
                 await app._receive(0x64, enc.make_network_nack(wire, 150))
             elif b == 'silence':
                 pass
+            elif isinstance(b, tuple) and b[0] == 'wire':
+                await app._receive(6, b[1])              # this attempt is answered with another packet
             elif n in certs:
                 await app._receive(6, certs[n])
 
@@ -457,6 +460,7 @@ def build_chain(eng, D, kinds, fault, link, tk=0):
         packet = tobytes(enc.make_data('/k/e/1', enc.MetaInfo(), b'payload', signers[D - 1]))
     W['packet'] = packet
     W['signers'] = signers
+    W['names'] = names
     W['other_signer'] = so
     return W
 
@@ -801,7 +805,54 @@ def h_history(eng, case):
     eng.reach('end')
 
 
-HARNESSES = {'concurrent': h_concurrent, 'seq': h_seq, 'deep': h_deep, 'ctor_roots': h_ctor_roots, 'chain': h_chain, 'ctor': h_ctor, 'history': h_history}
+def h_repair(eng, case):
+    """the set of retrievable certificates CHANGES between two validations by one validator: first a certificate on the
+    chain cannot be fetched (Nack / silence) or a forged one is served under its name, then the repository answers
+    properly.  Each verdict is the chain predicate of the world at that moment: the first one rejects, the second
+    accepts - nothing the first validation saw may stick"""
+    import ndn.encoding as enc
+    from ndn.app_support.light_versec import Checker, lvs_validator, compile_lvs
+    D = case['depth']
+    text = chain_schema(D)
+    key = ('deep', D)
+    if key not in _C:
+        _C[key] = (compile_lvs(text), lvsref.Schema(text))
+    model, rschema = _C[key]
+    W = build_chain(eng, D, case['kinds'], 'none', 0)
+    leaf = W['signers'][D - 1]
+    packets = [W['packet'], tobytes(enc.make_data('/k/d/2', enc.MetaInfo(), b'payload', leaf))]
+    eng.check(ref_chain(W, rschema, packets[0]) and ref_chain(W, rschema, packets[1]), 'reference-sanity')
+    lvl = 1 + eng.choice(D - 1, 'level')                     # whose certificate misbehaves first
+    kind = ['nack', 'silence', 'forged'][eng.choice(3, 'kind')]
+    cn = _tup(W['names'][lvl])
+    if kind == 'forged':
+        W['behaviour'][cn] = [('wire', tobytes(corrupt_sig(eng, W['certs'][cn])))]
+    else:
+        W['behaviour'][cn] = [kind]
+    second = eng.choice(2, 'second')                         # the same packet again, or another one of the same key
+
+    def mk(app):
+        return [lvs_validator(Checker(model, {}), app, W['anchor'][1])]
+    WW = {'anchor': (W['anchor'][0], W['anchor'][1]), 'mid': (W['anchor'][0], W['anchor'][1]),
+          'other': (W['anchor'][0], W['anchor'][1])}
+    r, out, face, loop, err = run_validation(eng, WW, packets, mk, [(0, 0), (0, second), (0, 0)], W['certs'],
+                                             W['behaviour'])
+    if 'ctor_exc' in out or r is None:
+        eng.fail('validation-terminates', 'ctor-or-deadlock', repr(out.get('ctor_exc'))[:100])
+        return
+    for k, got in enumerate(r):
+        if isinstance(got, tuple):
+            eng.fail('validator-returns-a-verdict', got[1])
+            return
+    eng.check(not r[0], 'verdict-equals-chain-predicate', {'phase': 1, 'kind': kind, 'level': lvl}, sig='accepts:' + kind)
+    eng.check(bool(r[1]) and bool(r[2]), 'verdict-independent-of-history',
+              {'kind': kind, 'level': lvl, 'verdicts': [bool(x) for x in r]},
+              sig='rejects-after-the-repository-recovered')
+    eng.observe('verdicts', [bool(x) for x in r])
+    eng.reach('end')
+
+
+HARNESSES = {'repair': h_repair, 'concurrent': h_concurrent, 'seq': h_seq, 'deep': h_deep, 'ctor_roots': h_ctor_roots, 'chain': h_chain, 'ctor': h_ctor, 'history': h_history}
 
 FAULTS = ['none', 'issuer-not-allowed', 'sig-corrupt', 'key-substituted', 'cert-nack', 'cert-timeout', 'unsigned',
           'locator-loop', 'name-outside-schema', 'mid-signed-by-other']
@@ -852,6 +903,10 @@ def cases(tier, seed):
     for D, kinds in ((2, ['rsa', 'ecdsa']),) if tier == 'quick' else ((1, ['ecdsa']), (2, ['rsa', 'ecdsa']), (3, ['hmac', 'ecdsa', 'rsa'])):
         for n in (1, 2, 3):
             cs.append(('seq', {'depth': D, 'kinds': kinds, 'len': n}, {'weight': 5 ** n}))
+    # the repository recovers between two validations by the same validator
+    for D, kinds in ((2, ['rsa', 'ecdsa']), (3, ['hmac', 'ecdsa', 'rsa'])) if tier == 'quick' else \
+            ((2, ['rsa', 'ecdsa']), (3, ['hmac', 'ecdsa', 'rsa']), (4, ['rsa', 'ecdsa', 'hmac', 'ecdsa'])):
+        cs.append(('repair', {'depth': D, 'kinds': kinds}, {'weight': 10}))
     for D, kinds, N in ((2, ['rsa', 'ecdsa'], 20), (3, ['hmac', 'ecdsa', 'rsa'], 12)) if tier == 'quick' else \
             ((1, ['ecdsa'], 40), (2, ['rsa', 'ecdsa'], 40), (3, ['hmac', 'ecdsa', 'rsa'], 24), (4, ['rsa', 'ecdsa', 'hmac', 'ecdsa'], 16)):
         cs.append(('concurrent', {'depth': D, 'kinds': kinds, 'packets': N}, {'weight': 30}))
